@@ -146,7 +146,8 @@ stored ones against the current `/repo` HEAD.  {n_first} were reported by the pr
 `meta.json/how_detected` and summarised below).  Column "corpus": the failing case recorded on the changed tree is
 kept as `corpus/<P>/<id>.json` ({ncorp} cases) and runs first in every check, whatever the seed
 (`tools/build_corpus.sh`; a case is accepted only if replaying it alone reports the violation on the changed tree and
-passes on `/repo`).
+passes on `/repo`).  The corpus also holds one case per repaired defect (`revert-<id>.json`, built by
+`tools/build_corpus_reverts.sh` on the tree with the fix reverted).
 
 | seed | file(s) | change | reported by | caught | corpus |
 |----|----|----|----|----|----|
